@@ -20,9 +20,13 @@ NOT_DECIDED = 'nothing of substance'
 M = 'magic::'
 
 
+_AUDITED = [0]
+
+
 def audit(ctx, R, name, got, want_fn, idx_desc):
     """compare a flat list with oracle want_fn(i); one obligation per table"""
     t = T.Tables(ctx.facts())
+    _AUDITED[0] += 1
     if got is None:
         ctx.inconclusive(R, 'constant %s not found or not evaluable' % name)
         return
@@ -45,6 +49,7 @@ def audit(ctx, R, name, got, want_fn, idx_desc):
 
 def r1(ctx):
     R = 'C16.R1'
+    _AUDITED[0] = 0
     f = ctx.facts()
     t = T.Tables(f)
     rook = t.scalar(M + 'ROOK')
@@ -86,7 +91,7 @@ def r1(ctx):
     for name, want in scal.items():
         v = t.scalar(name)
         audit(ctx, R, name, None if v is None else [v], lambda i, want=want: want, lambda i: 'value')
-    ctx.floor(R, 'geometry constants audited', len(ctx.instances.get(R, [])), 16)
+    ctx.floor(R, 'geometry constants audited', _AUDITED[0], 16)
 
 
 STEPS = ('square::Square::up', 'square::Square::down', 'square::Square::left', 'square::Square::right',
